@@ -24,17 +24,23 @@ def sh(cmd, cwd=None, env=None, timeout=None, check=True):
 def build_go(src_dir, name, modname, extra_require=""):
     """copies the sources of a helper program to out/build/<name>, generates a go.mod
     replacing gnark by /repo's CURRENT working tree, and builds it."""
-    bdir = os.path.join(OUT, "build", name)
+    # per-process build directory: several checks may run at the same time
+    bdir = os.path.join(OUT, "build", "%s-%d" % (name, os.getpid()))
     if os.path.isdir(bdir):
-        shutil.rmtree(bdir)
+        shutil.rmtree(bdir, ignore_errors=True)
     shutil.copytree(src_dir, bdir, ignore=shutil.ignore_patterns("go.mod", "go.sum"))
     with open(os.path.join(bdir, "go.mod"), "w") as f:
         f.write("module %s\n\ngo 1.23.0\n\nrequire github.com/consensys/gnark v0.0.0\n%s\nreplace github.com/consensys/gnark => %s\n" % (modname, extra_require, REPO))
     shutil.copy(os.path.join(REPO, "go.sum"), os.path.join(bdir, "go.sum"))
-    binp = os.path.join(OUT, "bin", name)
+    binp = os.path.join(OUT, "bin", "%s-%d" % (name, os.getpid()))
     os.makedirs(os.path.dirname(binp), exist_ok=True)
     t = time.time()
-    sh(["go", "build", "-o", binp, "."], cwd=bdir)
+    try:
+        sh(["go", "build", "-o", binp, "."], cwd=bdir)
+    finally:
+        shutil.rmtree(bdir, ignore_errors=True)
+    import atexit
+    atexit.register(lambda: os.path.exists(binp) and os.remove(binp))
     return binp, time.time() - t
 
 
